@@ -52,12 +52,32 @@ type Universe struct {
 	// WellKnown: the repository lives on a well-known hosting service (several projects of one repository
 	// are then found through one address)
 	WellKnown bool `json:"wellknown,omitempty"`
+	// RootProj: project 0 lives at the root of the repository (its path is the repository's address)
+	RootProj bool `json:"rootproj,omitempty"`
 }
 
 func ProjDir(i int) string { return fmt.Sprintf("p%d", i) }
 
+// dirOf is the directory inside the repository of the project with the given path.
+func (u *Universe) dirOf(p string) string {
+	p = project.TrimPathVersion(p)
+	if p == u.Addr() {
+		return ""
+	}
+	return strings.TrimPrefix(p, u.Addr()+"/")
+}
+
+// Dir is the directory of project i inside the repository: "p<i>", or "" for project 0 of a universe
+// whose first project lives at the root of the repository.
+func (u *Universe) Dir(i int) string {
+	if u.RootProj && i == 0 {
+		return ""
+	}
+	return ProjDir(i)
+}
+
 func (u *Universe) PathOf(t Tag) string {
-	return project.JoinPathVersion(path.Join(u.Addr(), ProjDir(t.Proj)), semver.Major(t.Version))
+	return project.JoinPathVersion(path.Join(u.Addr(), u.Dir(t.Proj)), semver.Major(t.Version))
 }
 
 func (u *Universe) MV(i int) module.Version {
@@ -98,6 +118,8 @@ type Repo struct {
 	// FailOnce, when >= 0, makes the first fetch of that project directory fail (a transient fault).
 	FailOnce int
 	failed   bool
+	// SlowFetch makes every checkout take this long, with the project file present but empty meanwhile
+	SlowFetch time.Duration
 }
 
 func NewRepo(u *Universe) *Repo {
@@ -105,7 +127,7 @@ func NewRepo(u *Universe) *Repo {
 	for i, t := range u.Tags {
 		r.versions = append(r.versions, &vcs.Version{
 			Version:     module.Version{Path: u.PathOf(t), Version: t.Version},
-			ProjectPath: ProjDir(t.Proj),
+			ProjectPath: u.Dir(t.Proj),
 			RevisionID:  commitID(i),
 		})
 	}
@@ -135,7 +157,7 @@ func (r *Repo) ResolveRef(ctx context.Context, ref string) (string, error) {
 		}
 	}
 	for i, t := range r.U.Tags {
-		if ref == ProjDir(t.Proj)+"/"+t.Version {
+		if ref == strings.TrimPrefix(r.U.Dir(t.Proj)+"/"+t.Version, "/") {
 			return commitID(i), nil
 		}
 	}
@@ -186,7 +208,12 @@ func (r *Repo) configAt(proj, idx int) (*project.Config, bool) {
 func (r *Repo) FetchRevision(ctx context.Context, projectPath string, rev vcs.Revision, destDir string) error {
 	rv := rev.(*revision)
 	var proj int
-	if _, err := fmt.Sscanf(projectPath, "p%d", &proj); err != nil {
+	if projectPath == "" || projectPath == "." {
+		if !r.U.RootProj {
+			return errors.New("no project at the root of this repository")
+		}
+		projectPath = ""
+	} else if _, err := fmt.Sscanf(projectPath, "p%d", &proj); err != nil {
 		return errors.New("no such project")
 	}
 	cfg, ok := r.configAt(proj, rv.idx)
@@ -201,6 +228,13 @@ func (r *Repo) FetchRevision(ctx context.Context, projectPath string, rev vcs.Re
 	dir := filepath.Join(destDir, filepath.FromSlash(projectPath))
 	if err := os.MkdirAll(dir, 0o700); err != nil {
 		return err
+	}
+	if r.SlowFetch > 0 {
+		// a checkout takes time: the file exists, empty, before its contents arrive
+		if f, err := os.Create(filepath.Join(dir, "dawn.toml")); err == nil {
+			f.Close()
+		}
+		time.Sleep(r.SlowFetch)
 	}
 	return project.WriteConfigFile(filepath.Join(dir, "dawn.toml"), cfg)
 }
@@ -257,13 +291,13 @@ func (u *Universe) pseudoTag(mv module.Version) int {
 	if err != nil {
 		return -1
 	}
-	dir := strings.TrimPrefix(project.TrimPathVersion(mv.Path), u.Addr()+"/")
+	dir := u.dirOf(mv.Path)
 	for c := range u.Tags {
 		if commitID(c)[:12] != rev {
 			continue
 		}
 		for i := c; i >= 0; i-- {
-			if ProjDir(u.Tags[i].Proj) == dir {
+			if u.Dir(u.Tags[i].Proj) == dir {
 				return i
 			}
 		}
@@ -335,10 +369,10 @@ func (u *Universe) RefVersion(p, ref string) (string, bool) {
 	}
 	_, major := project.SplitPathVersion(p)
 	// the project's directory must exist at that commit, else nothing can be fetched
-	dir := strings.TrimPrefix(project.TrimPathVersion(p), u.Addr()+"/")
+	dir := u.dirOf(p)
 	exists := false
 	for i := c; i >= 0; i-- {
-		if ProjDir(u.Tags[i].Proj) == dir {
+		if u.Dir(u.Tags[i].Proj) == dir {
 			exists = true
 		}
 	}
@@ -401,7 +435,7 @@ var projNames = []string{"lib", "core", "", "lib", "util", "p"}
 // GenUniverse draws a universe.
 func GenUniverse(t *rapid.T) Universe {
 	np := rapid.IntRange(2, 7).Draw(t, "nproj")
-	u := Universe{NProj: np, WellKnown: rapid.IntRange(0, 2).Draw(t, "wellknown") == 2}
+	u := Universe{NProj: np, WellKnown: rapid.IntRange(0, 2).Draw(t, "wellknown") == 2, RootProj: rapid.IntRange(0, 3).Draw(t, "rootproj") == 3}
 	used := map[string]bool{}
 	ntags := rapid.IntRange(np, 3*np+2).Draw(t, "ntags")
 	for i := 0; i < ntags; i++ {
